@@ -644,6 +644,13 @@ class SymReal:
         if len(spec) >= 3 and spec[0] == "." and spec[-1] == "f" and spec[1:-1].isdigit():
             n = int(spec[1:-1])
             return rounded_to_digits(self, n).tag()
+        # "g" / ".Pg" / "e" / ".Pe": P significant digits (default 6 resp. P+1 for e): modelled as a sound
+        # over-approximation -- some real within half a unit of the P-th significant digit, i.e. |r - x| <= |x| * 10^(1-P) / 2
+        if spec and spec[-1] in "gGeE" and (len(spec) == 1 or (spec[0] == "." and spec[1:-1].isdigit())):
+            p_ = 6 if len(spec) == 1 else int(spec[1:-1])
+            if spec[-1] in "eE":
+                p_ += 1
+            return rounded_to_significant(self, max(p_, 1)).tag()
         raise Unsupported(f"format spec {spec!r} on symbolic real")
 
 
@@ -674,6 +681,17 @@ def rounded_to_digits(x: SymReal, n: int) -> SymReal:
     scale = 10 ** n
     r = z3.ToReal(k) / scale
     ctx.add(z3.And(2 * scale * (r - x.e) <= 1, 2 * scale * (x.e - r) <= 1))
+    return SymReal(r)
+
+
+def rounded_to_significant(x: SymReal, p: int) -> SymReal:
+    """Over-approximating model of '{:.Pg}'.format(x) read back as a number: a real within half a unit of the P-th
+    significant digit of x (relative error at most 10^(1-P)/2); every value the real formatting can produce is allowed."""
+    ctx = Ctx.cur
+    r = z3.Real(f"rs!{_content_id(x.e)}!{p}")
+    ax = z3.If(x.e >= 0, x.e, -x.e)
+    bound = ax / (2 * 10 ** (p - 1))
+    ctx.add(z3.And(r - x.e <= bound, x.e - r <= bound))
     return SymReal(r)
 
 
